@@ -134,13 +134,13 @@ def plan_seq(pid, tier, seed, ncpu):
             js += con_jobs(bindirs["dbg0"], workdir, known, pid, "chase", seed + 9, 2, programs=scale(tier, 240, 6000), schedules=3, variant="dbg0")
         if pid in ("C03", "C10"):
             # the release profile has no debug_assert: counter drift shows as drift, not as a panic
-            js += con_jobs(bindirs["rel"], workdir, known, pid, "baton", seed + 2, 2, programs=scale(tier, 1600, 40000), schedules=scale(tier, 10, 20), variant="rel")
-            js += con_jobs(bindirs["rel"], workdir, known, pid, "stress", seed + 2, 2, programs=scale(tier, 300, 8000), schedules=scale(tier, 5, 10), variant="rel")
+            js += con_jobs(bindirs["rel"], workdir, known, pid, "baton", seed + 2, 2, programs=scale(tier, 800, 40000), schedules=scale(tier, 10, 20), variant="rel")
+            js += con_jobs(bindirs["rel"], workdir, known, pid, "stress", seed + 2, 2, programs=scale(tier, 160, 8000), schedules=scale(tier, 5, 10), variant="rel")
         if pid == "C07":
             js += con_jobs(bindirs["dbg"], workdir, known, pid, "chase", seed, 2, programs=scale(tier, 200, 6000), schedules=3)
         if pid in ("C03", "C07", "C10"):
-            js += con_jobs(bindirs["dbg"], workdir, known, pid, "baton", seed, 4, programs=scale(tier, 1600, 40000), schedules=scale(tier, 10, 20))
-            js += con_jobs(bindirs["dbg"], workdir, known, pid, "stress", seed, 2, programs=scale(tier, 300, 8000), schedules=scale(tier, 5, 10))
+            js += con_jobs(bindirs["dbg"], workdir, known, pid, "baton", seed, 4, programs=scale(tier, 1200, 40000), schedules=scale(tier, 10, 20))
+            js += con_jobs(bindirs["dbg"], workdir, known, pid, "stress", seed, 2, programs=scale(tier, 160, 8000), schedules=scale(tier, 5, 10))
         if pid == "C04":
             js += con_jobs(bindirs["dbg"], workdir, known, pid, "burstn", seed, 3, rounds=scale(tier, 18, 300))
             js += con_jobs(bindirs["dbg"], workdir, known, pid, "burst1", seed, 1, rounds=scale(tier, 20, 300))
@@ -229,8 +229,8 @@ CON_ASSUMPTIONS = COMMON_ASSUMPTIONS + [
 
 
 def plan_c02(pid, tier, seed, ncpu):
-    progs = scale(tier, 6400, 160000)
-    stress = scale(tier, 800, 12000)
+    progs = scale(tier, 4800, 160000)
+    stress = scale(tier, 480, 12000)
 
     def jobs(bindirs, workdir, known):
         js = con_jobs(bindirs["dbg"], workdir, known, pid, "baton", seed, max(1, ncpu * 3 // 4), programs=progs, schedules=scale(tier, 20, 50))
@@ -520,17 +520,17 @@ def plan_c08_c11(pid, tier, seed, ncpu):
     def jobs(bindirs, workdir, known):
         js = []
         d = bindirs["dbg"]
-        js += seq_jobs(d, workdir, known, pid, "safety", scale(tier, 160000, 3000000), 50, seed, 6, extra=["--drop-percent", "25"])
+        js += seq_jobs(d, workdir, known, pid, "safety", scale(tier, 120000, 3000000), 50, seed, 6, extra=["--drop-percent", "25"])
         js += seq_jobs(d, workdir, known, pid, "capacity", scale(tier, 40000, 800000), 50, seed, 2, extra=["--drop-percent", "10"])
         js += con_jobs(d, workdir, known, pid, "baton", seed, 2, programs=scale(tier, 800, 20000), schedules=10)
-        js += con_jobs(d, workdir, known, pid, "stress", seed, 2, programs=scale(tier, 300, 6000), schedules=5)
+        js += con_jobs(d, workdir, known, pid, "stress", seed, 2, programs=scale(tier, 160, 6000), schedules=5)
         js += con_jobs(d, workdir, known, pid, "park", seed, 1, programs=scale(tier, 30, 600), schedules=4)
         js += deq_jobs(d, workdir, known, pid, seed, 1, scale(tier, 40000, 800000))
         if pid == "C08":
             js += sketch_jobs(d, workdir, known, pid, seed, 2, scale(tier, 2000000, 30000000), big=thorough)
         a = bindirs["asan"]
         aj = seq_jobs(a, workdir, known, pid, "safety", scale(tier, 16000, 600000), 50, seed + 1, scale(tier, 4, 8), extra=["--drop-percent", "25"], prefix="aseq")
-        aj += con_jobs(a, workdir, known, pid, "stress", seed + 1, 2, programs=scale(tier, 200, 6000), schedules=5, variant="asan")
+        aj += con_jobs(a, workdir, known, pid, "stress", seed + 1, 2, programs=scale(tier, 100, 6000), schedules=5, variant="asan")
         aj += con_jobs(a, workdir, known, pid, "baton", seed + 1, 1, programs=scale(tier, 200, 6000), schedules=5, variant="asan")
         aj += con_jobs(a, workdir, known, pid, "chase", seed + 1, 1, programs=scale(tier, 40, 1500), schedules=3, variant="asan")
         aj += con_jobs(a, workdir, known, pid, "iter", seed + 1, 1, rounds=scale(tier, 6, 100), variant="asan")
